@@ -130,6 +130,8 @@ def run(ctx):
               "c-str": dict(pulse_shape="gaussian", c="0"), "m-float": dict(pulse_shape="gaussian", m=1.5), "T-float": dict(pulse_shape="gaussian", T=8.0),
               "m-zero": dict(pulse_shape="gaussian", m=0), "m-neg": dict(pulse_shape="gaussian", m=-2), "T-zero": dict(pulse_shape="gaussian", T=0),
               "T-neg": dict(pulse_shape="gaussian", T=-3), "T-over-2sps": dict(pulse_shape="gaussian", T=17), "shape-unknown": dict(pulse_shape="sinc")}
+    for i_, nm in enumerate(["", "r", "z", "g", "gauss", "sian", "nrzz", "rzz", "tri", "n", "rec"]):
+        faults[f"shape-unknown-{i_}"] = dict(pulse_shape=nm)
     for name, kw in faults.items():
         try:
             with deadline(30):
@@ -141,7 +143,7 @@ def run(ctx):
             raised = "ValueError"
         except Exception as e:
             raised = type(e).__name__
-        events.append({"kind": "verdict", "fault": name, "raised": raised})
+        events.append({"kind": "verdict", "fault": "shape-unknown" if name.startswith("shape-unknown") else name, "raised": raised})
         meta.append(("verdict", name))
         ctx.case(("verdict", name), None, nontrivial=False)
     gv.clean()
